@@ -1037,7 +1037,16 @@ func (vw *valWorld) ctlOp(name string, cl *ref.Client, c *core.Conn, op ValOp) {
 		if op.Same {
 			v = vc.c.Value
 		}
-		body, _ := json.Marshal(map[string]interface{}{"characteristics": []map[string]interface{}{{"aid": vc.aid, "iid": vc.c.ID, "value": v}}})
+		var wire interface{} = v
+		if b, ok := v.(bool); ok && vc.fmt == characteristic.FormatBool && vw.sc.Prop != "C12" && (op.K+len(vw.writes))%3 == 1 {
+			// HAP lets a controller write booleans as 1 / 0
+			wire = 0
+			if b {
+				wire = 1
+			}
+			vw.w.Sim.Count("probe.bool_written_as_number")
+		}
+		body, _ := json.Marshal(map[string]interface{}{"characteristics": []map[string]interface{}{{"aid": vc.aid, "iid": vc.c.ID, "value": wire}}})
 		wr := &valWrite{pos: vc.pos, value: vw.expectStored(vc, v), origin: name, conn: c.ID, inv: s.Seq(), same: op.Same, remote: true, refused: !hasPerm(vc.perm, "pw")}
 		before := canon(vc.c.Value)
 		vw.writes = append(vw.writes, wr)
